@@ -28,7 +28,8 @@ LEVEL = {'text': 'Machine-checked theorems over unbounded inputs: .debug_aranges
 RULE = ('cases: (aranges) Coq-encoded tables of 0..6 sets, address size 4/8 mixed, three layouts: packed (each set starts where the '
         'previous one ends, so 8-byte sets start at non-multiples of 16 after 4-byte sets), ragged (1..7 garbage bytes inside unit_length '
         'after the terminator: odd set starts), aligned (what producers emit); globally pairwise-disjoint ranges dealt to sets in '
-        'random order with adjacent pairs, gaps, empty sets, garbage padding/trailing bytes; queried at first byte-1, first byte, middle, '
+        'random order with adjacent pairs, gaps, empty sets, garbage padding/trailing bytes, a range beginning at address 0 (first, '
+        'middle, last or only tuple of its set) and zero-length tuples with non-zero address in gaps (neither is a terminator); queried at first byte-1, first byte, middle, '
         'last byte, one past, for EVERY tuple, plus below/above/gap addresses; (names) 0..5 sets of pubnames or pubtypes with ASCII, '
         'non-ASCII UTF-8, empty and duplicate names, present and absent queries through [], get, iter, items, len, get_cu_headers; '
         '(units) 1..6 synthesized units (v2-v5, 32/64-bit, all six v5 unit types) queried at EVERY offset 0..size-1 in random order '
@@ -45,18 +46,23 @@ def _garbage(rng, n):
     return bytes(rng.randint(1, 255) for _ in range(n))
 
 
-def _gen_ranges(rng, n, bits):
-    """n pairwise non-conflicting (begin, length) ranges below 2**bits: random gaps, ~1/3 adjacent"""
+def _gen_ranges(rng, n, bits, force0=False):
+    """n pairwise non-conflicting (begin, length) tuples below 2**bits: random gaps, ~1/3 adjacent; the first range begins
+    at address 0 in about a quarter of the tables (always with force0): (0, len > 0) is an ordinary tuple, only (0, 0)
+    terminates a set.  About one tuple in eight is a zero-length tuple (begin != 0) standing in a gap or right at the end of
+    the previous range: it contains no address, conflicts with nothing (Spec ranges_conflict) and is not a terminator."""
     out = []
-    cur = rng.choice([0, 0, 1, 8, 0x1000, rng.randrange(1, 2 ** (bits - 8))])
+    cur = 0 if force0 else rng.choice([0, 0, 0, 1, 8, 0x1000, rng.randrange(1, 2 ** (bits - 8))])
     for _ in range(n):
-        if out and rng.random() < 0.35:
+        if (out and rng.random() < 0.35) or (not out and (force0 or rng.random() < 0.6)):
             gap = 0
         else:
             gap = rng.choice([1, 2, 7, 0x10, rng.randint(1, 0x1000)])
         b = cur + gap
-        if b == 0 and rng.random() < 0.5:
-            b = 0
+        if b != 0 and rng.random() < 0.125:
+            out.append((b, 0))               # the next range must not contain b: it begins after b
+            cur = b + 1
+            continue
         ln = rng.choice([1, 1, 2, 3, 8, 0x10, rng.randint(1, 0x4000)])
         out.append((b, ln))
         cur = b + ln
@@ -66,15 +72,23 @@ def _gen_ranges(rng, n, bits):
 LAYOUTS = ['packed', 'packed', 'ragged', 'aligned']
 
 
-def _gen_aranges_sets(rng, nsets, layout=None, allow_big=True):
+def _gen_aranges_sets(rng, nsets, layout=None, allow_big=True, zero_at=None):
     """layout: 'packed'  no byte after the terminator: every set starts where the previous one ends
                'ragged'  1..7 garbage bytes after some terminators (still inside unit_length): odd set starts
-               'aligned' trailing bytes chosen so that every set starts at a multiple of its tuple size (producers)"""
+               'aligned' trailing bytes chosen so that every set starts at a multiple of its tuple size (producers)
+       zero_at: 'first' | 'middle' | 'last' | 'only': the table has a range beginning at address 0 and that tuple is put at
+               this position of a set with further tuples ('only': alone in its set)"""
     layout = layout or rng.choice(LAYOUTS)
     asz = [rng.choice([4, 8]) for _ in range(nsets)]
     bits = 32 if 4 in asz else rng.choice([32, 48, 64]) if allow_big else 32
     counts = [rng.choice([0, 0, 1, 1, 2, 3, 5]) for _ in range(nsets)]
-    ranges = _gen_ranges(rng, sum(counts), bits)
+    if zero_at:
+        counts[rng.randrange(nsets)] += 3
+    ranges = _gen_ranges(rng, sum(counts), bits, force0=bool(zero_at))
+    zero = ranges[0] if zero_at else None
+    if zero_at:
+        ranges = ranges[1:]
+        counts[counts.index(max(counts))] -= 1
     rng.shuffle(ranges)                      # unsorted, dealt to sets in random order
     sets = []
     pos = 0
@@ -84,6 +98,12 @@ def _gen_aranges_sets(rng, nsets, layout=None, allow_big=True):
         tuples = [list(t) for t in tuples if not (t[0] == 0 and t[1] == 0)]
         sets.append([rng.choice([2, 2, 3, 4, 5, rng.randrange(65536)]), rng.randrange(2 ** 32) if rng.random() < 0.3 else rng.randrange(0x10000),
                      asz[i], _garbage(rng, 4), tuples, b''])
+    if zero_at == 'only':
+        empties = [st for st in sets if not st[4]]
+        (rng.choice(empties) if empties else sets[0])[4][:] = [list(zero)]
+    elif zero_at:
+        st = max(sets, key=lambda x: len(x[4]))
+        st[4].insert({'first': 0, 'middle': max(1, len(st[4]) // 2), 'last': len(st[4])}[zero_at], list(zero))
     return _layout(sets, rng, layout)
 
 
@@ -135,7 +155,7 @@ def _addresses_for(sets, rng):
         addrs.update([min(allb) - 1, min(allb) - 0x100, 0, max(ends), max(ends) + 0x1000, 2 ** 64 - 1, 2 ** 32])
     else:
         addrs.update([0, 1, 0x1000, 2 ** 32 - 1, 2 ** 64 - 1])
-    return sorted(addrs)
+    return sorted(a for a in addrs if a >= 0)       # addresses are unsigned
 
 
 def _gen_name(rng):
@@ -260,6 +280,12 @@ def gen(ctx):
                     st[4] = st[4][:-1]
         cases.append(('aranges_entries', [le, sets]))
         cases.append(('aranges_lookup', [le, sets, _addresses_for(sets, rng)]))
+    for i in range(32 * T):          # a range beginning at address 0 as first / middle / last / only tuple of a set:
+        le = rng.random() < 0.6      # (0, len > 0) is not the terminator, the rest of the set must still be read
+        where = ['first', 'middle', 'last', 'only'][i % 4]
+        sets = _gen_aranges_sets(rng, rng.choice([1, 2, 3]), zero_at=where)
+        cases.append(('aranges_entries', [le, sets]))
+        cases.append(('aranges_lookup', [le, sets, _addresses_for(sets, rng)]))
     for i in range(20 * T):          # every set empty
         le = rng.random() < 0.5
         sets = _gen_aranges_sets(rng, rng.choice([1, 2, 3]))
@@ -267,7 +293,9 @@ def gen(ctx):
             st[4] = []
         sets = _layout(sets, rng, rng.choice(LAYOUTS))
         cases.append(('aranges_lookup', [le, sets, _addresses_for(sets, rng)]))
-    for i in range(25 * T):          # out of domain: conflicting ranges, zero-length tuples, wrong padding length
+    for i in range(25 * T):          # out of the LOOKUP domain: conflicting ranges, zero-length tuples beginning inside a range
+        #                              (the table must still list every tuple: these are in the domain of the entries
+        #                              round trip); out of every domain: wrong padding length
         le = rng.random() < 0.5
         k = rng.choice(['overlap', 'zerolen', 'padlen'])
         sets = _gen_aranges_sets(rng, rng.choice([1, 2]), allow_big=False)
@@ -281,6 +309,7 @@ def gen(ctx):
                 extra = [b + ln // 2, max(1, ln)] if k == 'overlap' else [b if b else 1, 0]
                 rng.choice(sets)[4].append(extra)
                 sets = _layout(sets, rng, rng.choice(LAYOUTS))
+                cases.append(('aranges_entries', [le, sets]))
         cases.append(('aranges_lookup', [le, sets, _addresses_for(sets, rng)]))
     for i in range(6 * T):           # truncations (error behaviour is outside the property: drift only)
         sets = _gen_aranges_sets(rng, rng.choice([1, 2]))
@@ -473,6 +502,13 @@ def evaluate(ctx, cases):
             off_grid = _off_grid(a[1])
             ctx.bump('sets', len(a[1]))
             ctx.bump('tuples', ntup if ntup < 8 else '8+')
+            shapes = {('begin 0' if t[0] == 0 else 'zero length' if t[1] == 0 else None) for st in a[1] for t in st[4]} - {None}
+            ctx.bump('tuple_shapes', '+'.join(sorted(shapes)) or 'plain')
+            for st in a[1]:
+                for j, t in enumerate(st[4]):
+                    if t[0] == 0 or t[1] == 0:
+                        ctx.bump('begin0_or_zero_length_at', 'only' if len(st[4]) == 1 else 'first' if j == 0 else
+                                 'last' if j == len(st[4]) - 1 else 'middle')
             ctx.bump('address_sizes', '+'.join(str(z) for z in sorted({st[2] for st in a[1]})) or 'none')
             ctx.bump('set_starts', 'all multiples of the tuple size' if not off_grid else
                      'off the tuple grid, odd' if any(o % 2 for o in off_grid) else 'off the tuple grid')
